@@ -50,13 +50,17 @@ ChainDescs == << <<"chain", <<3>>, <<2, 3>>, <<2, 2, 3>>>>, <<"chain", <<1, 2>>,
 PairBcDescs == << <<"pairbc", <<1, 11>>, <<11, 11>>, <<11, 1>>, <<11, 11>>>>, <<"pairbc", <<12>>, <<1, 2, 12>>, <<1, 2>>, <<12, 1, 2>>>>,
                   <<"pairbc", <<1, 1>>, <<2, 11>>, <<11>>, <<2, 11>>>>, <<"pairbc", <<2, 1>>, <<2, 3>>, <<1, 32>>, <<2, 32>>>>,
                   <<"pairbc", <<1, 2>>, <<3, 2>>, <<33, 1>>, <<33, 2>>>> >>
-All == PairBcDescs \o ChainDescs \o BigAr \o BigBc \o BcastDescs \o (IF Thorough THEN ArithAll ELSE ArithDescs) \o DotDescs \o MMDescs
+(* the expansion's result in a LATER operand slot of an operation whose earlier slot holds something computed from it: a *)
+(* traversal that marks tensors when it first sees them (rather than when it expands them) orders the result before its   *)
+(* own consumer and hands the operand the reduction of an incomplete gradient                                             *)
+LaterDescs == << <<"later", <<3>>, <<2, 3>>, 1>>, <<"later", <<1, 2>>, <<3, 2>>, 1>>, <<"later", <<2, 1>>, <<2, 3>>, 2>>, <<"later", <<>>, <<2>>, 1>> >>
+All == LaterDescs \o PairBcDescs \o ChainDescs \o BigAr \o BigBc \o BcastDescs \o (IF Thorough THEN ArithAll ELSE ArithDescs) \o DotDescs \o MMDescs
 Descs == MyCases(All)
 
 WithG(name, ins, doms, op, par, ydims) ==
   LET n == Len(ins)
       inputs == ins \o <<In("g", ydims, FALSE)>>
-  IN MkCaseD("c07", name, inputs, doms \o <<"any">>,
+  IN MkCaseD("c07", name, inputs, doms \o <<"any,any,tiny170">>,            \* third profile: a non-constant upstream gradient of magnitude 1e-170 (its squares underflow)
              <<Ins(op, par, [k \in 1..n |-> k]), Ins("mul", NoPar, <<n + 2, n + 1>>)>>, <<n + 2>>, n + 3, FALSE)
 
 YDims(op, par, dimsSeq) == OpApply(op, par, [k \in DOMAIN dimsSeq |-> SymT("t", dimsSeq[k])]).dims
@@ -68,6 +72,13 @@ Build(d) ==
                        Ins("flatten", [dim |-> 0], <<3>>), Ins("sumalong", [dim |-> 0], <<5>>),
                        Ins("flatten", [dim |-> 0], <<4>>), Ins("sumalong", [dim |-> 0], <<7>>), Ins("add", NoPar, <<6, 8>>)>>
          IN MkCaseD("c07", "two-broadcasts", <<In("a", d[2], TRUE), In("b", d[4], TRUE)>>, <<"any,distinct", "any,distinct">>, code, <<3, 4>>, 9, FALSE)
+    [] d[1] = "later" ->
+         LET t == d[3]
+             cd == SetDim(t, 1, 2 * t[1])
+             first == IF d[4] = 1 THEN <<4, 3>> ELSE <<3, 4>>
+         IN MkCaseD("c07", "broadcast-in-a-later-slot", <<In("a", d[2], TRUE), In("g", cd, FALSE)>>, <<"any", "any">>,
+                    <<Ins("broadcast", [shape |-> t], <<1>>), Ins("scale", [k |-> QI(3)], <<3>>), Ins("concat", [dim |-> 0], first),
+                      Ins("mul", NoPar, <<5, 2>>)>>, <<3, 5>>, 6, FALSE)
     [] d[1] = "chain" ->
          MkCaseD("c07", "broadcast-of-broadcast", <<In("a", d[2], TRUE), In("g", d[4], FALSE)>>, <<"any", "any">>,
                  <<Ins("broadcast", [shape |-> d[3]], <<1>>), Ins("broadcast", [shape |-> d[4]], <<3>>), Ins("mul", NoPar, <<4, 2>>)>>, <<3, 4>>, 5, FALSE)
